@@ -12,7 +12,7 @@ def run(rep, tier, seed, replay):
     cases, cst = c.cached_tlc_file("async-" + tier, "MCAsync", [tier], {"VERIF_TIER": tier}, timeout=1800)
     out = os.path.join(c.OUT, f"async_result-{os.getpid()}.ndjson")
     trace = os.path.join(c.OUT, f"async_trace-{os.getpid()}.ndjson")
-    rc, o, dt = c.run([c.hbin("drive"), "async", cases, out, trace, str(seed)] + (["thorough"] if tier == "thorough" else []), timeout=3600)
+    rc, o, dt = c.run([c.hbin("drive"), "async", cases, out, trace, str(seed)] + (["thorough"] if tier == "thorough" else []), timeout=3600, driver="drive async")
     if rc != 0:
         c.driver_failed("drive async", rc, o)
     rows = c.read_ndjson(out)
